@@ -1,5 +1,6 @@
 #!/bin/bash
-# usage: trymut.sh <patch.diff> <prop> [<prop>...]     (env TIER=quick|thorough, PAR=<n>, BASE=<commit of /repo the patch was written against; default HEAD>)
+# usage: trymut.sh <patch.diff> <prop> [<prop>...]     (env TIER=quick|thorough, PAR=<n>, BASE=<commit of /repo the patch was written against; default HEAD>,
+#        VHOME=<a built snapshot of /verif to run the checks from, so that /verif can be edited meanwhile; default /verif>)
 # Tries a seeded change without touching /repo: makes a scratch worktree of
 # /repo's HEAD under /tmp, applies the change there, runs the named checks
 # against it (VERIF_REPO) with evidence/replays redirected (VERIF_OUT), prints
@@ -15,12 +16,12 @@ if ! git -C "$wt" apply "$patch"; then echo "PATCH DOES NOT APPLY: $patch"; exit
 mkdir -p "$wt.out"
 run1() {
   p=$1
-  out=$(cd /verif && VERIF_REPO="$wt" VERIF_OUT="$wt.out/$p" timeout 3600 bin/vcheck "$p" --tier "${TIER:-quick}" 2>&1)
+  out=$(cd "${VHOME:-/verif}" && VERIF_HOME="${VHOME:-/verif}" VERIF_REPO="$wt" VERIF_OUT="$wt.out/$p" timeout 3600 bin/vcheck "$p" --tier "${TIER:-quick}" 2>&1)
   code=$?
   nv=$(echo "$out" | grep -c '^VIOLATION')
   first=$(echo "$out" | grep '^VIOLATION' | head -1 | cut -c1-400)
   last=$(echo "$out" | tail -1 | cut -c1-200)
   echo "  $p exit=$code violations=$nv ${first:-$last}"
 }
-export -f run1; export wt TIER
+export -f run1; export wt TIER VHOME
 printf '%s\n' "$@" | xargs -P "${PAR:-4}" -I{} bash -c 'run1 {}'
